@@ -25,7 +25,11 @@ AggExprs(t) ==
         \o <<Len0>>
         \o Flat(MapS(bv, LAMBDA c : <<Agg("any", Col(c)), Agg("all", Col(c)), Agg("sum", Col(c))>>))
         \o Flat(MapS(c1, LAMBDA c : Flat(MapS(pr, LAMBDA p : <<AggF("sum", Col(c), p), AggF("count", Col(c), p), Len0F(p),
-                                                                  AggF("max", Col(c), p)>>))))
+                                                                  AggF("max", Col(c), p),
+                                                                  \* a list of conditions: all of them must hold
+                                                                  AggF2("sum", Col(c), p, Fn1("is_not_null", Col(c))),
+                                                                  AggF2("count", Col(c), p, Fn2("lt", Col(c), LitI(3))),
+                                                                  AggF2("min", Col(c), Fn2("ge", Col(c), LitI(0)), p)>>))))
         \o Flat(MapS(c1, LAMBDA c : Flat(MapS(gp, LAMBDA g :
               <<Fn2("add", Col(g), Agg("max", Col(c))),
                 Fn2("add", Agg("sum", Col(c)), Cast(Col(g), "float")),
